@@ -555,7 +555,9 @@ Theorem part_from_substore body user p inputs D fx rs :
   (forall g, In g p -> fsub body p inputs D rs g) ->
   exists ps, map_run_sel body p inputs user (Some fx) rs = ROk ps
     /\ (forall g, In g p -> fsub body p inputs D (p_store ps) g)
-    /\ Forall (dump_den body p inputs D) (p_tr ps).
+    /\ Forall (dump_den body p inputs D) (p_tr ps)
+    /\ (forall g o, In g p -> is_mapped g = false -> In o (fouts g) ->
+          dict_get (st_val (p_store ps)) o = Some (Ok (dval D o))).
 Proof.
   intros Harity Hreq Hden Hord Hcons Hval Hrange Hsub.
   destruct (pipeline_order_ok_spec p (request_ok_nodup p inputs Hreq) Hord) as [Htopo [Hpb Hall]].
@@ -610,7 +612,7 @@ Proof.
   - destruct (full_run_on_substore_denotes body user p inputs D rs Harity Hreq Hden Hord Hsub) as [psF [F1 [F2 [F3 F4]]]].
     exists rs, [], psF. split; [constructor|]. auto 10.
   - destruct (Hacc fx (or_introl eq_refl)) as [Hval Hrange].
-    destruct (part_from_substore body user p inputs D fx rs Harity Hreq Hden Hord Hcons Hval Hrange Hsub) as [ps [P1 [P2 P3]]].
+    destruct (part_from_substore body user p inputs D fx rs Harity Hreq Hden Hord Hcons Hval Hrange Hsub) as [ps [P1 [P2 [P3 _]]]].
     destruct (IH (p_store ps) Harity Hreq Hden Hord Hcons (fun fx' H' => Hacc fx' (or_intror H')) P2)
       as [rsN [trs [psF [Q1 [Q2 [Q3 Q4]]]]]].
     exists rsN, (p_tr ps :: trs), psF. split; [econstructor; eauto|]. split; [exact Q2|]. split; [constructor; assumption | exact Q4].
